@@ -136,6 +136,22 @@ pub fn check_roundtrip(c: &mut Case, name: &str, t: &TextArchive, content: &Cont
             if re.is_dirty() {
                 c.fail("dirty", "parsed_dirty", format!("{}: a freshly parsed archive reports is_dirty() == true", name));
             }
+            // the other route to the same value: bin archive first, then TextArchive::from_archive
+            let via = c.lib("BinArchive::from_bytes + TextArchive::from_archive", || -> Result<TextArchive, String> {
+                let a = mila::BinArchive::from_bytes(&ser_t, endian(content.be)).map_err(|e| e.to_string())?;
+                TextArchive::from_archive(&a, fmt(content.unicode), endian(content.be)).map_err(|e| e.to_string())
+            });
+            match via {
+                None => {}
+                Some(Err(e)) => c.fail("two_routes", "from_archive_err", format!("{}: from_bytes accepts the image but from_archive(BinArchive::from_bytes(..)) fails: {}", name, e)),
+                Some(Ok(v)) => {
+                    let a: Vec<(&String, &String)> = v.get_entries().iter().collect();
+                    let b: Vec<(&String, &String)> = re.get_entries().iter().collect();
+                    if a != b || v.get_title() != re.get_title() {
+                        c.fail("two_routes", "from_archive_differs", format!("{}: TextArchive::from_archive and TextArchive::from_bytes disagree on the same image; content={}", name, content.describe()));
+                    }
+                }
+            }
         }
     }
     c.sample(if content.unicode { "unicode" } else { "shift_jis" }, || {
